@@ -112,6 +112,13 @@ def enumerate_cases(tier: str, shard: int, nshards: int):
             if idx % nshards != shard:
                 continue
             yield {"kind": "family", "family": name, "n": n}
+    # the command-line entry point on every URL of the vocabulary, as autolink and as link destination
+    for u in gen.URLS:
+        for doc in (f"<{u}>", f"[a]({u})", f"[a]: {u}\n\n[a]"):
+            idx += 1
+            if idx % nshards != shard:
+                continue
+            yield {"kind": "cli", "hex": doc.encode("utf-8", "surrogatepass").hex()}
     if shard == 0:
         for bad in (None, 1, 1.5, ["a"], {"a": 1}, ("x",)):
             yield {"kind": "typeerror", "arg": "src", "value": repr(bad)}
@@ -208,10 +215,12 @@ def check(case) -> Res:
         try:
             with os.fdopen(fd, "wb") as f:
                 f.write(data)
-            out = io.StringIO()
+            # a real standard output encodes what is printed: use a strict UTF-8 text stream, not a StringIO
+            out = io.TextIOWrapper(io.BytesIO(), encoding="utf-8", errors="strict")
             try:
                 with contextlib.redirect_stdout(out):
                     rc = cli.main([path])
+                    out.flush()
                 if rc != 0:
                     res.fail("cli:nonzero", f"cli main returned {rc}")
             except SystemExit as e:
